@@ -223,7 +223,7 @@ func cmdCheck(args []string) int {
 			defer func() {
 				if r := recover(); r != nil {
 					if se, ok := r.(specErr); ok {
-						f.obls = append(f.obls, &Obl{ID: len(f.obls), Fn: short, Kind: "contract", Text: "contract applies to the current code", Cond: "false", Output: string(se)})
+						f.obls = append(f.obls, &Obl{ID: len(f.obls), Fn: short, Kind: "contract", Text: "contract applies to the current code", Cond: "false", Status: "failed", Output: string(se)})
 						f.genErr = string(se)
 						return
 					}
@@ -432,6 +432,16 @@ func (c *checkCtx) report(t0 time.Time, verbose bool) int {
 	}
 	// violations
 	rc := 0
+	if engineErr {
+		for _, ob := range failed {
+			if ob.Status == "engine-error" {
+				fmt.Printf("ENGINE-ERROR %s: %s\n", ob.Name(), truncate(strings.ReplaceAll(ob.Output, "\n", " "), 400))
+				break
+			}
+		}
+		fmt.Println("ENGINE-ERROR at least one obligation could not be given to the solvers (or solvers disagree); no verdict")
+		return 2
+	}
 	nrep := 0
 	for _, ob := range failed {
 		if (ob.Status == "failed" || ob.Status == "unknown") && !ob.Cover && nrep < 4 {
